@@ -181,6 +181,7 @@ type c10Obs struct {
 	Leaked   []string // stacks of goroutines alive after the call that were not alive before
 	FDBefore int
 	FDAfter  int
+	FDLeaked []string
 	Elapsed  time.Duration
 }
 
@@ -205,12 +206,47 @@ func c10Goroutines() map[string]string {
 	return out
 }
 
-func c10FDCount() int {
+// c10FDSnapshot lists the open descriptors of the process with their targets (the descriptor used
+// for the listing itself is left out).
+func c10FDSnapshot() map[string]string {
 	es, err := os.ReadDir("/proc/self/fd")
 	if err != nil {
-		return -1
+		return nil
 	}
-	return len(es)
+	m := map[string]string{}
+	for _, e := range es {
+		tgt, err := os.Readlink("/proc/self/fd/" + e.Name())
+		if err != nil || strings.HasSuffix(tgt, "/fd") {
+			continue
+		}
+		m[e.Name()] = tgt
+	}
+	return m
+}
+
+// c10FDLeaked returns the descriptors open now that were not open in before (same number and same
+// target count as already open). A descriptor whose close is still in flight in another goroutine
+// of the runtime (a close deferred until a blocked call returns) gets a settling period: only one
+// that stays open is a leak. No GC is forced: finalizers would close a leaked handle and hide it.
+func c10FDLeaked(before map[string]string) []string {
+	if before == nil {
+		return nil
+	}
+	var leaked []string
+	for try := 0; try < 40; try++ {
+		leaked = leaked[:0]
+		for fd, tgt := range c10FDSnapshot() {
+			if old, ok := before[fd]; !ok || old != tgt {
+				leaked = append(leaked, fd+"->"+tgt)
+			}
+		}
+		if len(leaked) == 0 {
+			return nil
+		}
+		time.Sleep(5 * time.Millisecond)
+	}
+	sort.Strings(leaked)
+	return leaked
 }
 
 func c10HopTokens(run *result.TracerouteRun) []string {
@@ -230,7 +266,8 @@ func c10HopTokens(run *result.TracerouteRun) []string {
 // c10Run executes one case against the real entry point.
 func c10Run(t *testing.T, c c10Case) c10Obs {
 	var o c10Obs
-	o.FDBefore = c10FDCount()
+	fdBefore := c10FDSnapshot()
+	o.FDBefore = len(fdBefore)
 	target := netip.MustParseAddr("198.51.100.9")
 	var ln net.Listener
 	var port uint16
@@ -420,7 +457,8 @@ func c10Run(t *testing.T, c c10Case) c10Obs {
 			ln.Close()
 		}
 	}
-	o.FDAfter = c10FDCount()
+	o.FDLeaked = c10FDLeaked(fdBefore)
+	o.FDAfter = o.FDBefore + len(o.FDLeaked)
 	return o
 }
 
@@ -750,8 +788,8 @@ func TestC10(t *testing.T) {
 		case len(o.Leaked) > 0:
 			bad = fmt.Sprintf("%d goroutine(s) started by the run outlive the call", len(o.Leaked))
 			sample["leaked_goroutines"] = o.Leaked
-		case o.FDAfter > o.FDBefore && o.FDBefore >= 0:
-			bad = fmt.Sprintf("file descriptors leaked: %d open before the run, %d after", o.FDBefore, o.FDAfter)
+		case len(o.FDLeaked) > 0:
+			bad = fmt.Sprintf("file descriptors leaked: %d open before the run, still open 200 ms after it: %s", o.FDBefore, strings.Join(o.FDLeaked, " "))
 		}
 		if bad != "" {
 			rep.Violate(hx.Violation{Kind: "spec", What: bad, Sig: sig, Replay: sample})
